@@ -23,7 +23,8 @@ checks, na = [], []
 for p in props:
     pid = p["id"]
     f = ROOT / "vmon" / "monitors" / f"{pid.lower()}.py"
-    if not f.exists():
+    ready = set((ROOT / "tools" / "ready.txt").read_text().split())
+    if not f.exists() or pid not in ready:
         na.append({"property_id": pid, "reason": "monitor not built yet (work in progress; see DESIGN.md section 3 for the planned oracle)"})
         continue
     c = consts(f)
